@@ -146,6 +146,29 @@ def budget_case(ctx, case):
                       f'call-stack limit {limit}, {k} top-level calls, then a call inside {kinds}: {r.detail}')
 
 
+def deftime_cases():
+    bodies = ((('M',),), (('CALL0',),), (('CALL1',),), (('T',),), (('F',),))
+    for a, b, c in itertools.product((0, 1), repeat=3):
+        for x, y, z in itertools.product(bodies, repeat=3):
+            for d in (0, 1):
+                yield (('DEF%d' % a, x), ('DEF%d' % b, y), ('DEF%d' % c, z), ('CALL%d' % d,), ('M',))
+
+
+def deftime_case(ctx, p):
+    """a call resolves its handle when it runs: forward references, redefinitions between definition and call, mutual recursion"""
+    code = spaces.render(p)
+    r = compare(code, limits=(1024, 1024, 6))
+    ctx.ran(2 if r.verdict != "unspec" else 1)
+    ctx.state((code,))
+    ctx.trans(5)
+    if r.verdict == 'agree':
+        ctx.outcome('agree:' + r.why)
+    elif r.verdict == 'unspec':
+        ctx.unspec(r.why)
+    else:
+        ctx.violation({'space': 'CTRL definition timing', 'why': r.why}, f'program {p!r} bytes {code.hex()}: {r.detail}')
+
+
 def flag_cases(tier, seed, shard, nshards):
     """every cache-writing instruction (two typed cases each) after UNSET_FLAG of every one and every two of the integer flags:
     exactly the documented cache entries are withheld"""
@@ -194,6 +217,8 @@ def blocks(tier, seed):
               for kinds in [()] + [(a,) for a in BUDGET_WRAPS] + [(a, b) for a in BUDGET_WRAPS for b in BUDGET_WRAPS]]
     bl.append(Block('CTRL_call_budget', bcases, budget_case,
                     'call-stack limit {1,2,3,5} x 0..limit+1 top-level calls x one more call inside every construct kind / pair of kinds', nshards=32))
+    bl.append(Block('CTRL_definition_timing', list(deftime_cases()), deftime_case,
+                    'three definitions over handles {0,1} x bodies {marker, CALL0, CALL1, TRUE, FALSE}, then a call (2000 programs, call-stack limit 6)', nshards=32))
     bl.append(Block('STEP_flag_subsets', lambda s, n: flag_cases(tier, seed, s, n), step_case,
                     'cache-writing crypto / contract instruction after UNSET_FLAG of every one and every two of the 11 integer flags', nshards=32))
     return bl
